@@ -1028,6 +1028,22 @@ func runC18() {
 			c.predicateIdentities(pl.arrs[0], p, []int{0, 1, 2, 3, 4, 5})
 		}
 	}
+	// a collection that is LITERALLY a map(...) / filter(...) under a predicate whose NESTED builtin ranges over an expression of the
+	// outer element: the element the predicate sees is the mapped value everywhere inside the predicate (no rewriting of the
+	// pipeline may capture `#`)
+	for _, xs := range []string{"map(AI, {# * 2})", "map(1..3, {# * 10})", "map(AI, {# + I})", "filter(map(AI, {# * 3}), {# > 0})", "map(map(1..3, {# + 1}), {# * 2})"} {
+		for _, p := range []string{"count(0..#, {true}) > 4", "len(filter(1..#, {# > 2})) == 2", "any(#..(# + 1), {# == 6})", "one(0..#, {# == 5})", "count(1..#, {# > 0}) == #", "sum0(#)"} {
+			if p == "sum0(#)" {
+				p = "len(map(0..#, {#})) % 3 == 1"
+			}
+			c.predicateIdentities(xs, p, []int{0, 1, 2, 3})
+		}
+	}
+	for _, xs := range []string{"map(AI, {[#, # * 2]})", "map(1..3, {1..#})"} {
+		for _, p := range []string{"len(filter(#, {# > 1})) > 0", "count(#, {# % 2 == 0}) == 1", "all(#, {# > 0})"} {
+			c.predicateIdentities(xs, p, []int{0, 1, 2, 3})
+		}
+	}
 	// native oracle over AI
 	for _, m := range c18Modes {
 		for ei := range c.envs {
